@@ -1058,18 +1058,33 @@ def lower13(ctx) -> List[Ob]:
                 e = e.args[0]
         if not isinstance(e, ast.Name):
             continue
-        ds = [d for d in ctx.cfg(hf).reaching_defs(c, e.id) if d.stmt is not None and isinstance(d.stmt, ast.Assign)]
+        ds = [d for d in ctx.cfg(hf).reaching_defs(c, e.id) if d.stmt is not None and isinstance(d.stmt, (ast.Assign, ast.AugAssign))]
         if len(ds) < 2:
             continue
         variants = []
-        for d in ds:
-            v = d.stmt.value
+
+        def _text_of(v):
             if isinstance(v, ast.Call) and (A.dotted(v.func) or "") in ("textwrap.dedent", "dedent") and v.args:
                 v = v.args[0]
             if not (isinstance(v, ast.JoinedStr) or (isinstance(v, ast.Constant) and isinstance(v.value, str))):
-                variants = None
-                break
-            text, _phs = _symbolic_source(v)
+                return None
+            return _symbolic_source(v)[0]
+
+        for d in ds:
+            if isinstance(d.stmt, ast.AugAssign):
+                # code += f".."  (a statement appended on one path): the text so far plus the appended text
+                bases = [b for b in ctx.cfg(hf).reaching_defs(d.stmt, e.id) if b.stmt is not None and b.stmt is not d.stmt]
+                tb = _text_of(bases[0].stmt.value) if len(bases) == 1 and isinstance(bases[0].stmt, ast.Assign) and isinstance(d.stmt.op, ast.Add) else None
+                ta = _text_of(d.stmt.value)
+                text = (textwrap.dedent(tb) + "\n" + textwrap.dedent(ta)) if tb is not None and ta is not None else None
+                if text is None:
+                    variants = None
+                    break
+            else:
+                text = _text_of(d.stmt.value)
+                if text is None:
+                    variants = None
+                    break
             try:
                 tr = ast.parse(textwrap.dedent(text)) if text is not None else None
             except SyntaxError:
